@@ -1,12 +1,14 @@
 import Mdns.Model.Cache
 import Mdns.Lemmas.Sched
+import Mdns.Props.C17
 /-
   C20  State stays bounded: expired data is forgotten.
 
-  Model: `Mdns/Model/Cache.lean` (eviction, compared op by op with the real `DnsCache` in
-  `./check C11`) and `Mdns/Model/Sched.lean` (timers).  The daemon-level clause - the
-  metrics the daemon reports after every TTL has passed, and the amount of data kept for
-  names nobody asked for - is decided by the monitor `ok_C20` on real histories.
+  First part: `Mdns/Model/Cache.lean` (eviction, compared op by op with the real `DnsCache` in
+  `./check C11`) and `Mdns/Model/Sched.lean` (timers).  Second part (`section ClientModel`):
+  whole histories of the client model `Mdns/Model/Client.lean` (compared with the real daemon
+  per iteration, metrics included).  The amount of data kept for names nobody asked for is
+  decided by the monitor `ok_C20` on real histories (known finding D25).
 -/
 namespace Mdns.Props.C20
 open Mdns Mdns.Rec Mdns.Rec.Record Mdns.Cache
@@ -74,5 +76,77 @@ example : allExpired 200000 [([0x69], [orphan])] := by
   simp at hp; subst hp
   simp at he; subst he
   decide
+
+/-! ### whole histories of the client model -/
+
+section ClientModel
+open Mdns.Client
+
+/-- the number of records in the five tables of the cache, as `get_metrics` reports them -/
+def cachedTotal (s : State) : Nat :=
+  (metricsOf s).ptr + (metricsOf s).srv + (metricsOf s).txt + (metricsOf s).addr + (metricsOf s).nsec
+
+/-- **cache_bounded (whole histories).**  Start the daemon and run ANY history: every entry of
+    every table of the cache is the copy of a record that was delivered to the daemon (same
+    owner, type, class, cache-flush bit and RDATA; created at the delivery with its TTL), filed
+    under its own name, and that record's lifetime has not ended at the time of the last
+    iteration.  Nothing is cached that was not received, and nothing outlives its TTL by even
+    one iteration. -/
+theorem cache_bounded (t0 : Nat) (intfs : List Intf) (h : List (Nat × List Packet × List Command))
+    (sl : Slot) (p : BList × List Entry) (hp : p ∈ (run (init t0 intfs) h).1.cache.table sl) (e : Entry) (he : e ∈ p.2) :
+    Filed sl p.1 e ∧
+    ∃ d ∈ C03.histOf (init t0 intfs) h, Justifies d e ∧ C17.lastTime 0 h < d.time + 1000 * d.wire.ttl := by
+  obtain ⟨⟨d, hd, j⟩, hf⟩ := C17.run_prov h t0 intfs sl p hp e he
+  have hl := C17.run_live h (init t0 intfs) 0 (cacheAll_empty _) sl p hp e he
+  refine ⟨hf, d, hd, j, ?_⟩
+  have := j.2.2.2.2.2.2.2
+  simp only at hl
+  omega
+
+/-- **drained (cache; whole histories).**  Run ANY history and then an iteration at `now`
+    (with whatever input).  If the lifetime of every record delivered so far - this iteration
+    included - has ended by `now`, the iteration leaves all five tables of the cache empty
+    (no record, no name), whether or not searches are still open; the cache counters of
+    `get_metrics` are all 0. -/
+theorem drained_cache (t0 : Nat) (intfs : List Intf) (pre : List (Nat × List Packet × List Command))
+    (now : Nat) (pkts : List Packet) (cmds : List Command)
+    (hover : ∀ d ∈ C03.histOf (init t0 intfs) (pre ++ [(now, pkts, cmds)]), d.time + 1000 * d.wire.ttl ≤ now) :
+    let s' := (iter (run (init t0 intfs) pre).1 now pkts cmds).1
+    s'.cache.ptr = [] ∧ s'.cache.srv = [] ∧ s'.cache.txt = [] ∧ s'.cache.addr = [] ∧ s'.cache.nsec = [] ∧
+    cachedTotal s' = 0 := by
+  have hprov := (ok_iter _ _ now pkts cmds (C17.run_prov pre t0 intfs)).1
+  have hlive := iter_allLive (run (init t0 intfs) pre).1 now pkts cmds
+  have hhist : C03.histOf (init t0 intfs) (pre ++ [(now, pkts, cmds)]) =
+      C03.histOf (init t0 intfs) pre ++ deliveries (run (init t0 intfs) pre).1 now pkts := by
+    rw [C17.histOf_append]
+    simp [C03.histOf]
+  rw [hhist] at hover
+  have hnone : ∀ sl : Slot, (iter (run (init t0 intfs) pre).1 now pkts cmds).1.cache.table sl = [] := by
+    intro sl
+    cases ht : (iter (run (init t0 intfs) pre).1 now pkts cmds).1.cache.table sl with
+    | nil => rfl
+    | cons p rest =>
+      exfalso
+      have hp : p ∈ (iter (run (init t0 intfs) pre).1 now pkts cmds).1.cache.table sl := by rw [ht]; exact List.mem_cons_self
+      cases hes : p.2 with
+      | nil => exact hlive.2 sl p hp hes
+      | cons e es =>
+        have he : e ∈ p.2 := by rw [hes]; exact List.mem_cons_self
+        obtain ⟨⟨d, hd, j⟩, _⟩ := hprov sl p hp e he
+        have h1 := hlive.1 sl p hp e he
+        have h2 := j.2.2.2.2.2.2.2
+        have h3 := hover d hd
+        simp only at h1
+        omega
+  have h1 := hnone .ptr
+  have h2 := hnone .srv
+  have h3 := hnone .txt
+  have h4 := hnone .addr
+  have h5 := hnone .nsec
+  simp only [Cache.table] at h1 h2 h3 h4 h5
+  refine ⟨h1, h2, h3, h4, h5, ?_⟩
+  simp [cachedTotal, metricsOf, h1, h2, h3, h4, h5, tableCount]
+
+end ClientModel
 
 end Mdns.Props.C20
